@@ -74,12 +74,20 @@ func vfC12(w *vfWorld) {
 		cs.Refresh = "unsupported"
 	}
 	idp.RefreshSupported = cs.Refresh != "none"
+	// the id_token is optional in a refresh response
+	idp.OmitIDOnRefresh = cs.Refresh == "ok" && t.Prob("c12.omit-id-on-refresh", 250)
 	// age at use, relative to R
 	ageOff := vfPick(t, "c12.age", []time.Duration{5 * time.Second, 2 * time.Second, time.Minute, -2 * time.Second, -time.Minute, R})
 	age := R + ageOff
 	cs.Age = age.String()
 	// token lifetime: long (validation passes at use) or short (validation fails at use)
 	ttlLong := !t.Prob("c12.ttlshort", 250)
+	if idp.OmitIDOnRefresh {
+		// a refresh answer without id_token leaves the login's ID token in the session, and that one is verified after every
+		// refresh: with an ID token that has expired by then the product signs the user out although the refresh succeeded.
+		// Whether that is what "refreshed before use" asks for is not judged here - the ID token outlives the run
+		ttlLong = true
+	}
 	if ttlLong {
 		idp.IDTokenTTL = age + 3*time.Hour
 	} else {
@@ -384,7 +392,18 @@ func vfC12(w *vfWorld) {
 			validateOK = validateOK && tr.valOK
 			validateSure = validateSure && (tr.valOK || tr.valNo)
 		}
-		calm := phaseDur < 4500*time.Millisecond && maxHold < 1900*time.Millisecond && lat < 1950*time.Millisecond
+		// "provided the provider answers within the refresh lock's duration": the duration is read off the store (the TTL the
+		// lock key gets when it is obtained), not assumed; beyond the provider's latency the episode may take 2.5 s of
+		// scheduling (the driver's own delays must not eat the waiters' patience)
+		lockD := 2 * time.Second
+		if w.redis != nil {
+			for _, ev := range w.redis.Events()[redisMark:] {
+				if ev.LockOp == "obtain" && ev.LockTTL > 0 {
+					lockD = ev.LockTTL
+				}
+			}
+		}
+		calm := phaseDur-lat < 2500*time.Millisecond && maxHold < lockD-100*time.Millisecond && lat < lockD-50*time.Millisecond
 		w.nontriv = stale && cs.Tasks >= 2 && cs.Store == "redis"
 		if !calm {
 			w.probe("c12:not-calm")
@@ -595,5 +614,31 @@ func vfC12After(w *vfWorld, b *vfBrowser, reps []*vfReplica, cfg *vfCfg, results
 		if c.Endpoint == "token:refresh" {
 			w.violate("C12", "later-refreshed-again", cs.Store, "a request %v after a successful refresh (refresh period %v) refreshed again", w.simNow()-c.At, R)
 		}
+	}
+	// ---- a second staleness episode, sequential: the session must be refreshable AGAIN - with what the first refresh left
+	// in it (a provider that rotates single-use refresh tokens accepts only the newest one) ----
+	if len(refreshOK) != 1 || !w.tape.Bool("c12.second-episode") {
+		return
+	}
+	mark2 := w.idp.mark()
+	stale0 := w.probes["idp:stale-refresh-token-presented"]
+	w.Sleep(R + 5*time.Second)
+	r2 := b.GET(reps[0], "/app/second-episode")
+	w.probe("c12:second-episode")
+	n2 := 0
+	for _, c := range w.idp.since(mark2, "") {
+		if c.Endpoint == "token:refresh" {
+			n2++
+		}
+	}
+	if w.probes["idp:stale-refresh-token-presented"] > stale0 {
+		w.violate("C12", "stale-rt", "second-episode", "the second refresh of the session presented a refresh token the provider had already replaced (rotation %v, refresh answers without id_token %v)", cs.Rotate, w.idp.OmitIDOnRefresh)
+	}
+	if n2 != 1 || len(r2.UpHits) != 1 {
+		w.violate("C12", "refresh-count", "second-episode", "second staleness episode (sequential): %d refresh calls, status %d", n2, r2.Status)
+		return
+	}
+	if _, g2, _ := vfParseAT(r2.UpHits[0].Get("X-Forwarded-Access-Token")); g2 != last+1 {
+		w.violate("C12", "old-tokens-after-refresh", "second-episode", "after the second refresh the request forwarded generation %d, want %d", g2, last+1)
 	}
 }
